@@ -313,7 +313,7 @@ package node
   ensures (and (not (= result vnil)) (= (|F!types/node.filterSubscription!filterParent| result) {parent}))
 @*/
 /*@ func types/node.BuildController
-  props C20
+  props C20 C11
   theory nodetyped
   ghost perr : V := vnil
   at call(NewController) assert [an-untyped-controller-on-the-same-context-log-and-client] (and (= $0 {ctx}) (= $1 {log}) (= $2 {client}))
